@@ -17,6 +17,8 @@ import (
 	"fmt"
 	"os"
 	"os/exec"
+	"path/filepath"
+	"regexp"
 	"runtime"
 	"sort"
 	"strings"
@@ -141,6 +143,7 @@ type Scenario struct {
 	Name     string
 	Variants int // number of listing-order variants (>=1)
 	Walks    bool
+	Heavy    bool // an execution costs ~100 ms (in-process CLI): the quick tier uses reduced seed and grid sets
 	Run      func(ctx context.Context, e *Env) ([]byte, error)
 }
 
@@ -168,7 +171,9 @@ func annotationText(anns []bufx.Annotation) []byte {
 	return b.Bytes()
 }
 
-func scenarios() []Scenario {
+func scenarios() []Scenario { return append(apiScenarios(), cliScenarios()...) }
+
+func apiScenarios() []Scenario {
 	return []Scenario{
 		{Name: "build", Variants: 4, Walks: true, Run: func(ctx context.Context, e *Env) ([]byte, error) {
 			img, err := buildImage(ctx, e, false)
@@ -306,6 +311,73 @@ func scenarios() []Scenario {
 			}
 			return out.Bytes(), nil
 		}},
+	}
+}
+
+// ---- CLI-level scenarios (in-process buf on a scratch directory) ----
+
+var (
+	cliOnce sync.Once
+	cliDir  string
+	cliErr  error
+)
+
+// cliWorkspace materialises the workspace (current and older version) once per process.
+func cliWorkspace() (string, error) {
+	cliOnce.Do(func() {
+		cliDir, cliErr = os.MkdirTemp("", "verif-c02-")
+		if cliErr != nil {
+			return
+		}
+		for name, files := range map[string]map[string]string{"cur": workspace(0, false), "old": workspace(0, true)} {
+			for p, c := range files {
+				full := filepath.Join(cliDir, name, filepath.FromSlash(p))
+				if cliErr = os.MkdirAll(filepath.Dir(full), 0o755); cliErr != nil {
+					return
+				}
+				if cliErr = os.WriteFile(full, []byte(c), 0o644); cliErr != nil {
+					return
+				}
+			}
+		}
+	})
+	return cliDir, cliErr
+}
+
+var diffHeaderTime = regexp.MustCompile(`(?m)^(---|\+\+\+) (\S+)\t.*$`)
+
+func cliScenario(name string, wantExit int, args func(dir string) []string) Scenario {
+	return Scenario{Name: name, Variants: 1, Heavy: true, Run: func(ctx context.Context, e *Env) ([]byte, error) {
+		dir, err := cliWorkspace()
+		if err != nil {
+			return nil, err
+		}
+		res := bufx.RunCLI(ctx, nil, "", args(dir)...)
+		if res.ExitCode != wantExit {
+			return nil, fmt.Errorf("exit code %d (want %d): %s", res.ExitCode, wantExit, res.Stderr)
+		}
+		out := strings.ReplaceAll(res.Stdout+"\n--stderr--\n"+res.Stderr, dir, "<dir>")
+		// the ---/+++ headers of `format -d` carry mtimes of temp files handed to the external diff program
+		out = diffHeaderTime.ReplaceAllString(out, "$1 $2")
+		if len(out) < 40 {
+			return nil, fmt.Errorf("vacuous CLI scenario %s: %q", name, out)
+		}
+		return []byte(out), nil
+	}}
+}
+
+func cliScenarios() []Scenario {
+	return []Scenario{
+		cliScenario("cli build -o -", 0, func(d string) []string { return []string{"build", filepath.Join(d, "cur"), "-o", "-#format=binpb"} }),
+		cliScenario("cli lint json", 100, func(d string) []string { return []string{"lint", filepath.Join(d, "cur"), "--error-format=json"} }),
+		cliScenario("cli breaking json", 100, func(d string) []string {
+			return []string{"breaking", filepath.Join(d, "cur"), "--against", filepath.Join(d, "old"), "--error-format=json"}
+		}),
+		cliScenario("cli format -d", 0, func(d string) []string { return []string{"format", "-d", filepath.Join(d, "cur")} }),
+		cliScenario("cli ls-files --include-imports", 0, func(d string) []string {
+			return []string{"ls-files", filepath.Join(d, "cur"), "--include-imports"}
+		}),
+		cliScenario("cli dep graph", 0, func(d string) []string { return []string{"dep", "graph", filepath.Join(d, "cur")} }),
 	}
 }
 
@@ -762,7 +834,11 @@ func exploreScenario(sc Scenario, quick bool, deadline time.Time) workerResult {
 	}
 	// map seeds
 	if mapSeedAvailable() {
-		for seed := 0; seed < 64; seed++ {
+		seeds := 64
+		if quick && sc.Heavy {
+			seeds = 16 // every in-bucket offset at two start buckets
+		}
+		for seed := 0; seed < seeds; seed++ {
 			try(Exec{Scenario: sc.Name, Dimension: "map-seed", MapSeed: seed})
 		}
 	}
@@ -770,6 +846,9 @@ func exploreScenario(sc Scenario, quick bool, deadline time.Time) workerResult {
 	for _, gmp := range []int{1, 2, 4, 16} {
 		for _, par := range []int{1, 2, 3, 4, 8, 16} {
 			if quick && !(gmp == 1 || gmp == 16 || par == 2) {
+				continue
+			}
+			if quick && sc.Heavy && !((gmp == 1 && par == 1) || (gmp == 16 && par == 16) || (gmp == 4 && par == 2) || (gmp == 1 && par == 16)) {
 				continue
 			}
 			try(Exec{Scenario: sc.Name, Dimension: "parallelism-grid", Parallelism: par, GOMAXPROCS: gmp})
@@ -803,6 +882,9 @@ func worker(args []string) int {
 	quick := args[1] == "true"
 	fmt.Sscan(args[2], &dl)
 	res := exploreScenario(scenarios()[si], quick, time.Unix(dl, 0))
+	if cliDir != "" {
+		os.RemoveAll(cliDir)
+	}
 	b, _ := json.Marshal(res)
 	fmt.Println("RESULT " + string(b))
 	return 0
